@@ -13,7 +13,7 @@ from vmc.snap import snap, digest
 
 PROPERTY = "C13"
 LEVEL_TEXT = ("explicit-state search over call histories fit / fit_transform / transform on an input menu (two different inputs and one that makes the call "
-              "raise) up to depth 3 (4 thorough) for every estimator: histories reaching the same fitted state (digest of every attribute) are merged; on "
+              "raise) up to depth 3 (5 thorough), plus one closing transform from every state of the last level, for every estimator: histories reaching the same fitted state (digest of every attribute) are merged; on "
               "every transition the arguments and constructor parameter objects are compared with deep snapshots, the worker's private TMPDIR and the "
               "cachedir are listed, and every transform result is compared with the same call on a fresh estimator fitted by the last fit alone; two "
               "fits with the same integer random_state must agree to 1e-9.  Block-wise Wasserstein/Sinkhorn fits are additionally run with an "
@@ -133,10 +133,13 @@ def run_histories(case):
     frontier = [()]
     tmp0 = listing(tmpdir())
     interesting = False
-    for d in range(depth):
+    for d in range(depth + 1):
         nxt = []
+        # after the last full level every reached state is closed by each transform (the observation), so that a history
+        # fit(X1), transform, fit(X2) | transform - stale state surviving a refit - is within the quick bound too
+        closing = (d == depth)
         for hist in frontier:
-            for (op, i) in events:
+            for (op, i) in (events if not closing else [e for e in events if e[0] == "transform"]):
                 est, last_fit = replay(hist)
                 if op == "transform" and (last_fit is None or last_fit[0] == "failed"):
                     continue     # transform on an unfitted / half-fitted estimator: outside the property
